@@ -53,7 +53,12 @@ Monitors
                         INT SEID 0 / 0x3F, Start/Suspend lists mixing it with a valid one): a SEID that does not exist is
                         never accepted; then on EVERY end-point Set_Configuration, Get_Configuration (same bytes back), Open,
                         transport channel, Start, a media packet reaching exactly that sink, Suspend, Reconfigure, Start,
-                        Close, release, Set_Configuration, Abort, and Discover listing all three
+                        Close, release, Set_Configuration, Abort, and Discover listing all three. The APPLICATION side
+                        refuses too: in every state, a well-formed command the state machine lets through (and seeded ones it
+                        does not) is met by an end-point callback that returns the signal's reject, a callback that raises,
+                        or an event listener that raises: never accepted, the application's reject relayed as is, and the
+                        SAME command, the application now willing, accepted right after (the refusal changed no state),
+                        then the run on every end-point
 Mechanism keys: wedge/<channel>/<what>, derail/<channel>/<what>; on the stateful surfaces <what> = <symptom>/after-<class of the
 hostile frame or dialogue step>.
 """
@@ -88,7 +93,9 @@ RULE = ('per channel: (a) enumeration of every truncation length and every lengt
         'rounds of 1-3 such frames and mutated corpus frames, each round followed by the 72-frame run; rfcomm-open: every (PN step, SABM '
         'step) pair and every MSC variant as one scripted open_dlc() dialogue per round (never thinned), every unsolicited corpus '
         'frame, seeded combinations; avdtp-state: every (boundary SEID, signal, variant) alone in a round after a seeded walk of 1-3 '
-        'end-points into seeded states, seeded rounds of 1-4 commands on one boundary SEID, mutated corpus frames')
+        'end-points into seeded states, seeded rounds of 1-4 commands on one boundary SEID, mutated corpus frames; every (state, '
+        'command let through by the state machine, way the application refuses: reject / callback raises / listener raises) alone in '
+        'a round (never thinned), seeded rounds of 1-3 refusals on different end-points')
 ASSUMPTIONS = [
     'the virtual link loses nothing; hostile frames are whole L2CAP PDUs (fragmented by the attacker host as usual) '
     'or whole H4 packets',
@@ -117,7 +124,8 @@ ASSUMPTIONS = [
     'avdtp-state: a command addressed to an existing SEID changes the state as the AVDTP state machine says iff it was accepted (the '
     'model follows the response); Abort for a SEID that does not exist may be accepted or left unanswered (bumble accepts it; 8.15.2 '
     'says no response): not judged; the in-use bit of Discover is not judged; after mutated frames every end-point is aborted before '
-    'the run',
+    'the run; a command the application refuses by raising may stay unanswered (only "not accepted" and the state are judged), Abort '
+    'has no reject: an application that fails on it is only required not to wedge the end-point',
     'sdp-client: a hostile response the client legitimately accepts (valid PDU, right transaction ID) may make the '
     'outstanding call return garbage or raise an ordinary exception; only its termination is judged, correctness is judged '
     'on the fresh query that follows',
@@ -179,6 +187,9 @@ MIN_EVENTS['quick'].update({
     'rfo_reference_runs_completed': 80,
     'avs_hostile_commands': 90, 'avs_invalid_seid_commands_judged': 50, 'avs_reference_commands_accepted': 2000,
     'avs_endpoint_runs_completed': 200, 'avs_media_packets_delivered': 120,
+    'avs_app_refusals_made': 50, 'avs_app_refusals_made_reject': 12, 'avs_app_refusals_made_raise': 12,
+    'avs_app_refusals_made_listener': 12, 'avs_app_refusals_made_in_idle': 8, 'avs_app_refusals_made_in_configured': 8,
+    'avs_app_refusals_made_in_open': 12, 'avs_app_refusals_made_in_streaming': 8, 'avs_app_refused_commands_retried_ok': 40,
 })
 MIN_EVENTS['thorough'].update({
     'frames_ertm-state': 6000, 'frames_rfcomm-open': 4000, 'frames_avdtp-state': 6000,
@@ -189,6 +200,9 @@ MIN_EVENTS['thorough'].update({
     'rfo_reference_runs_completed': 4000,
     'avs_hostile_commands': 5000, 'avs_invalid_seid_commands_judged': 2500, 'avs_reference_commands_accepted': 100000,
     'avs_endpoint_runs_completed': 10000, 'avs_media_packets_delivered': 6000,
+    'avs_app_refusals_made': 1500, 'avs_app_refusals_made_reject': 300, 'avs_app_refusals_made_raise': 300,
+    'avs_app_refusals_made_listener': 300, 'avs_app_refusals_made_in_idle': 200, 'avs_app_refusals_made_in_configured': 200,
+    'avs_app_refusals_made_in_open': 300, 'avs_app_refusals_made_in_streaming': 200, 'avs_app_refused_commands_retried_ok': 1200,
 })
 
 KNOWN_VALUE = b'C17-known-value'
@@ -842,6 +856,8 @@ async def setup_br(env: Env, rng: random.Random, chan: str):
 class Driver:
     chan = ''
     max_len = 600
+
+    next_group = None
 
     def __init__(self, env: Env, rng: random.Random):
         self.env = env
@@ -3090,6 +3106,20 @@ class AvdtpStateDriver(ChannelDriver):
     psm = 0x19
     SIGNALS = (2, 3, 4, 5, 6, 7, 8, 9, 10, 11, 12, 13)
     TARGETS = ('idle', 'configured', 'open-no-transport', 'open', 'streaming')
+    # The APPLICATION side of the acceptor: the end-point callback consulted for a signal, and the event its stock
+    # implementation emits (None: no event). The harness plays an application that refuses ONE command: the callback
+    # returns the reject message of that signal ('reject'), the callback raises ('raise'), or a listener of the event
+    # raises ('listener').
+    APP_HOOKS = {3: ('on_set_configuration_command', 'configuration'), 5: ('on_reconfigure_command', None),
+                 6: ('on_open_command', 'open'), 7: ('on_start_command', 'start'), 8: ('on_close_command', 'close'),
+                 9: ('on_suspend_command', 'suspend'), 10: ('on_abort_command', 'abort'),
+                 11: ('on_security_control_command', 'security_control'), 13: ('on_delayreport_command', 'delay_report')}
+    APP_MODES = ('reject', 'raise', 'listener')
+    APP_ERROR = 0x29            # UNSUPPORTED_CONFIGURATION: none of the codes the stack itself answers with here
+    # (state, signal) in which the state machine lets the command through to the application
+    APP_LEGAL = ([('idle', 3), ('configured', 6), ('open', 5), ('open', 7), ('open', 8), ('streaming', 8), ('streaming', 9),
+                  ('configured', 10), ('open-no-transport', 10), ('open', 10), ('streaming', 10)]
+                 + [(t, sg) for sg in (11, 13) for t in ('idle', 'configured', 'open-no-transport', 'open', 'streaming')])
 
     def __init__(self, env, rng):
         super().__init__(env, rng)
@@ -3103,6 +3133,48 @@ class AvdtpStateDriver(ChannelDriver):
         self.rtp = {}
         self.round = 0
         self.walk_bad = []
+        self.app_armed = {}         # (seid, signal) -> mode: the application refuses the next such command
+        self.app_log = []           # (seid, signal, mode): refusals the application really made
+        self.app_sent = {}          # transaction label -> (seid, signal, mode, target state)
+
+    def install_application(self):
+        from bumble import avdtp
+        drv = self
+
+        err = avdtp.AVDTP_UNSUPPORTED_CONFIGURATION_ERROR
+        if int(err) != drv.APP_ERROR:
+            raise HarnessError('AVDTP_UNSUPPORTED_CONFIGURATION_ERROR is not 0x29')
+
+        def reject_for(signal, seid):
+            if signal in (3, 5):
+                cls = avdtp.Set_Configuration_Reject if signal == 3 else avdtp.Reconfigure_Reject
+                return cls(service_category=avdtp.AVDTP_MEDIA_CODEC_SERVICE_CATEGORY, error_code=err)
+            if signal in (7, 9):
+                return (avdtp.Start_Reject if signal == 7 else avdtp.Suspend_Reject)(seid, err)
+            return {6: avdtp.Open_Reject, 8: avdtp.Close_Reject, 11: avdtp.Security_Control_Reject,
+                    13: avdtp.DelayReport_Reject}[signal](err)
+
+        for ep in self.server.local_endpoints:
+            for signal, (method, event) in self.APP_HOOKS.items():
+                stock = getattr(ep, method)
+
+                async def hook(*args, _stock=stock, _signal=signal, _seid=ep.seid, **kw):
+                    mode = drv.app_armed.get((_seid, _signal))
+                    if mode in ('reject', 'raise'):
+                        del drv.app_armed[(_seid, _signal)]
+                        drv.app_log.append((_seid, _signal, mode))
+                        if mode == 'raise':
+                            raise RuntimeError(f'C17 application: cannot handle signal {_signal} on SEID {_seid}')
+                        return reject_for(_signal, _seid)
+                    return await _stock(*args, **kw)
+                setattr(ep, method, hook)
+                if event is not None:
+                    def listener(*_a, _signal=signal, _seid=ep.seid):
+                        if drv.app_armed.get((_seid, _signal)) == 'listener':
+                            del drv.app_armed[(_seid, _signal)]
+                            drv.app_log.append((_seid, _signal, 'listener'))
+                            raise RuntimeError(f'C17 application: listener fails on signal {_signal} on SEID {_seid}')
+                    ep.on(event, listener)
 
     async def setup(self):
         await super().setup()
@@ -3119,6 +3191,7 @@ class AvdtpStateDriver(ChannelDriver):
             self.rtp[ep.seid] = []
             ep.on(ep.EVENT_RTP_PACKET, lambda pkt, _s=ep.seid: self.rtp[_s].append(bytes(pkt.payload)))
         self.kinds = {1: (0, 1), 2: (0, 0), 3: (0, 1)}       # SEID -> (media type audio, TSEP: 1 sink / 0 source)
+        self.install_application()
 
     # -- transactions ---------------------------------------------------------------------------
     def next_label(self):
@@ -3210,6 +3283,19 @@ class AvdtpStateDriver(ChannelDriver):
         rng = self.rng
         self.walk_bad = []
         seids = list(range(1, self.N + 1))
+        self.app_armed.clear()
+        del self.app_log[:]
+        self.app_sent = {}
+        app = [d for _k, _n, d in (self.next_group or []) if d[:1] == b'\x02']
+        if app:
+            for _k, signal, seid, mode, target in app:
+                if self.state[seid] != 'idle':
+                    continue
+                self.walk_bad = await self.walk(seid, self.TARGETS[target])
+                self.env.r.ev(f'avs_walked_to_{self.TARGETS[target].replace("-", "_")}')
+                if self.walk_bad:
+                    break
+            return
         for seid in (rng.sample(seids, rng.choice([1, 1, 2, 3])) if self.round > 1 else []):
             if self.state[seid] != 'idle':
                 continue
@@ -3236,6 +3322,16 @@ class AvdtpStateDriver(ChannelDriver):
                 k, nm, d = rf.mutate(rng, self.corpus, max_len=self.max_len)
                 out.append(('raw-' + k, nm, b'\x01' + d))
             return out
+        if rng.random() < 0.25:
+            # the application refuses: 1-3 end-points, each in a seeded state, one command each (half of them commands the
+            # state machine lets through to the application)
+            out = []
+            for seid in rng.sample(range(1, self.N + 1), rng.choice([1, 1, 2, 3])):
+                target, signal = rng.choice(self.APP_LEGAL) if rng.random() < 0.6 else \
+                    (rng.choice(self.TARGETS), rng.choice(sorted(self.APP_HOOKS)))
+                sc = self.app_script(signal, seid, rng.randrange(3), self.TARGETS.index(target))
+                out.append(('app-refuses', self.app_script_name(sc), sc))
+            return out
         bound = rng.randrange(len(self.bounds))
         out = []
         for _ in range(rng.choice([1, 1, 2, 3, 4])):
@@ -3245,6 +3341,14 @@ class AvdtpStateDriver(ChannelDriver):
             out.append((self.bounds[bound][0], self.script_name(sc), sc))
         return out
 
+    def app_script(self, signal, seid, mode, target):
+        return bytes([2, signal, seid, mode, target])
+
+    def app_script_name(self, sc):
+        _k, signal, seid, mode, target = sc
+        return (f'{rf.AVDTP_SIGNAL_NAMES[signal]}(SEID {seid}) in state {self.TARGETS[target]}, refused by the application '
+                f'({self.APP_MODES[mode]})')
+
     def enum_frames(self):
         for b in range(len(self.bounds)):
             for signal in self.SIGNALS:
@@ -3252,12 +3356,34 @@ class AvdtpStateDriver(ChannelDriver):
                 for v in variants:
                     sc = self.script(signal, b, v, 1 + (signal + b) % self.N)
                     yield ('single-' + self.bounds[b][0], self.script_name(sc), sc)
+        # every (state, command the state machine lets through, way the application refuses), one per round, on
+        # sinks and on the source in turn (never thinned out)
+        k = 0
+        for target, signal in self.APP_LEGAL:
+            for mode, mname in enumerate(self.APP_MODES):
+                if (mname == 'listener' and self.APP_HOOKS[signal][1] is None) or (mname == 'reject' and signal == 10):
+                    continue
+                k += 1
+                sc = self.app_script(signal, 1 + k % self.N, mode, self.TARGETS.index(target))
+                yield ('solo-app-refuses', self.app_script_name(sc), sc)
 
     def tx(self, data):
         if data[:1] == b'\x01':
             self.label = 'mutated-frame'
             self.raw_sent = True
             return self.send_pdu(data[1:])
+        if data[:1] == b'\x02':
+            _k, signal, seid, mode, target = data
+            mname = self.APP_MODES[mode]
+            if (mname == 'listener' and self.APP_HOOKS[signal][1] is None) or (mname == 'reject' and signal == 10):
+                mname = 'raise'
+            self.label = f'app-{mname}-of-{rf.AVDTP_SIGNAL_NAMES[signal]}'
+            label = self.next_label()
+            self.app_armed[(seid, signal)] = mname
+            self.app_sent[label] = (seid, signal, mname, self.TARGETS[target])
+            self.sent.append((label, signal, [seid], True, self.app_script_name(data)))
+            self.env.r.ev('avs_app_refusal_commands')
+            return self.send_pdu(rf.avdtp_seid_cmd(label, signal, seid))
         _k, signal, bound, variant, other = data
         name, seid, valid = self.bounds[bound]
         self.label = name
@@ -3313,6 +3439,32 @@ class AvdtpStateDriver(ChannelDriver):
                     bad.append((f'invalid-acp-seid-accepted/{sname}/{self.label}',
                                 f'{name}: ACCEPTED (payload {rsp[4].hex()}) although no local end-point has that SEID {self.diag()}'))
                 continue
+            if label in self.app_sent:
+                seid, _sg, mode, target = self.app_sent[label]
+                if (seid, signal, mode) in self.app_log:
+                    # the application was consulted and refused: the command was not accepted, the state is unchanged
+                    self.app_log.remove((seid, signal, mode))
+                    r.ev('avs_app_refusals_made')
+                    r.ev(f'avs_app_refusals_made_{mode}')
+                    r.ev(f'avs_app_refusals_made_in_{self.state[seid].replace("-", "_")}')
+                    r.ev('oracle_evals')
+                    self.app_retry.append((seid, signal, mode))
+                    if rsp is not None and rsp[2] == 2:
+                        if signal != 10:        # (Abort has no reject: 8.15)
+                            bad.append((f'app-refused-command-accepted/{sname}/{mode}',
+                                        f'{name}: answered ACCEPT (payload {rsp[4].hex()}) {self.diag()}'))
+                        else:
+                            self.state[seid] = 'aborted'
+                            self.app_retry.pop()
+                    elif mode == 'reject':
+                        want = bytes([7, self.APP_ERROR]) if signal in (3, 5) else bytes([seid << 2, self.APP_ERROR]) \
+                            if signal in (7, 9) else bytes([self.APP_ERROR])
+                        if rsp is None or rsp[2] != 3 or rsp[3] != signal or rsp[4] != want:
+                            bad.append((f'app-reject-not-relayed/{sname}',
+                                        f'{name}: the application returned the reject {want.hex()}, the peer got '
+                                        f'{None if rsp is None else (rsp[2], rsp[3], rsp[4].hex())} {self.diag()}'))
+                    continue
+                r.ev('avs_app_refusals_not_reached')
             if rsp is None or rsp[2] != 2:
                 r.ev('avs_valid_seid_commands_rejected')
                 continue
@@ -3324,8 +3476,28 @@ class AvdtpStateDriver(ChannelDriver):
                 elif signal in (3, 5, 6, 7, 8, 9):
                     self.state[seid] = rf.AVDTP_ON_ACCEPT.get((cur, signal), 'unknown')
         self.sent = []
+        self.app_armed.clear()
         rx.clear()
         return bad
+
+    app_retry: list = []
+
+    async def retry_refused(self):
+        """A command the application refused did not change the state: the same well-formed command, the application
+        now willing, is accepted."""
+        retries, self.app_retry = self.app_retry, []
+        for seid, signal, mode in retries:
+            st = self.state[seid]
+            bad = await self.command(signal, seid, f'retry of the command the application refused ({mode}) on SEID {seid} in state {st}',
+                                     want_payload=b'')
+            if bad:
+                return [(f'retry-after-app-{mode}-' + k[4:], d) for k, d in bad]
+            self.env.r.ev('avs_app_refused_commands_retried_ok')
+            if signal == 10:
+                self.state[seid] = 'aborted' if st != 'idle' else 'idle'
+            elif signal in (3, 5, 6, 7, 8, 9):
+                self.state[seid] = rf.AVDTP_ON_ACCEPT.get((st, signal), 'unknown')
+        return []
 
     async def normalise(self):
         """Every end-point back to idle, by the means the specification gives the initiator."""
@@ -3397,7 +3569,11 @@ class AvdtpStateDriver(ChannelDriver):
         closed = self.channel_closed_by_victim()
         if closed:
             return closed
+        self.app_retry = []
         bad = self.account()
+        if bad:
+            return bad
+        bad = await self.retry_refused()
         if bad:
             return bad
         if self.raw_sent:
@@ -3535,6 +3711,7 @@ async def run_case(case, r: R):
                 g = drv.gen(rng.randint(1, 10))
                 burst = rng.random() < 0.3
             k += 1
+            drv.next_group = g          # (a driver may prepare the state the group is meant for)
             await drv.before_round()
             if not await inject(env, g, drv.tx, burst=burst, phys=drv.phys):
                 break
@@ -3589,7 +3766,8 @@ LEVEL_TEXT = ('Work meter (sys.monitoring PY_START/JUMP counts per injected fram
               'enumerated hostile frames / dialogues plus seeded rounds, each followed by a RUN instead of one request: 72 I-frames '
               'each way in bursts of exactly the TxWindow (~2.5x10^4 echoed I-frames quick), five RFCOMM open / data / close '
               'cycles (~10^3 quick), the whole configure-open-start-suspend-reconfigure-close-abort cycle on every end-point '
-              '(~5x10^3 accepted commands quick). '
+              '(~5x10^3 accepted commands quick); on the AVDTP acceptor also every (state, command, way the APPLICATION refuses it: reject / '
+              'callback raises / listener raises), retried at once. '
               'Sampling of the byte-string / history space, not proof.')
 LEVEL_NOTE = ('Trusted: the hand-written corpora, builders and reference parsers in vlib/ref_fuzz.py, the hand-driven L2CAP/'
               'RFCOMM/AT attacker in checks/c17.py, rig taps, the virtual-time loop, CPython sys.monitoring. A busy loop that '
